@@ -153,7 +153,8 @@ def run_check(prop, tier, seed, repo_root, write_ledger, t0):
     restructured = {}
     for key, sig in loop_sigs.items():
         was = ledger_loops.get(key)
-        if was is not None and was != sig:
+        kinds = lambda sg: [x.split()[0] for x in sg]       # "for (i, x)" -> "for": the names of the loop variables are not part of the structure
+        if was is not None and kinds(was) != kinds(sig):
             restructured[key] = (was, sig)
             undecided.append("%s: the loops of this function changed (validated against %s, now %s): its invariants are numbered by position and "
                              "need review" % (key, was, sig))
@@ -186,9 +187,12 @@ def run_check(prop, tier, seed, repo_root, write_ledger, t0):
         proof_failures.append(dict(obligation=oid, kind=e["kind"], where=sorted(e["where"]), statuses=statuses[:6],
                                    model=(models[0][:4000] if models else None),
                                    in_ledger=oid in ledger))
-    for oid in missing_ids:
-        proof_failures.append(dict(obligation=oid + ".missing", kind="missing", where=[], statuses=[],
-                                   model=None, in_ledger=True))
+    # obligations of the validated tree that the current source no longer generates (a statement that could raise is gone, a branch was removed):
+    # the code has changed shape under the contract - that is a reason to review the contract (UNDECIDED), not evidence of a wrong result
+    for oid in missing_ids[:8]:
+        undecided.append("obligation %s of the validated tree is no longer generated by the current source: the contract needs review" % oid)
+    if len(missing_ids) > 8:
+        undecided.append("... and %d more obligations are no longer generated" % (len(missing_ids) - 8))
 
     # ---------------------------------------------------------------- bounded stand-in
     bounded = run_bounded(prop, tier, seed, repo_root)
@@ -207,6 +211,11 @@ def run_check(prop, tier, seed, repo_root, write_ledger, t0):
         return None
 
     native_fail = (bounded or {}).get("failures", [])
+    # A function under contract that is no longer where the contract set expects it (moved to module level, renamed, inlined) breaks the modular
+    # argument: its callers were verified against its contract, now they execute something else at that call site.  What fails in OTHER functions
+    # then may be a consequence of the reorganisation, not of a wrong result: such a failure is a violation only with a failing input on the real code
+    # (finite-scope counterexample replayed, or a native failure of the bounded stand-in); otherwise the functions concerned are undecided.
+    unfound = [u for u in undecided if "function not found" in u]
     for pf in proof_failures:
         k = known_for("obligation", pf["obligation"])
         if k is not None:
@@ -222,6 +231,10 @@ def run_check(prop, tier, seed, repo_root, write_ledger, t0):
         unk = [f for f in native_fail if known_for("bounded", f.get("class")) is None]
         path = os.path.join("replays", prop, safe(pf["obligation"]) + ".json")
         has_input = bool(replayed and replayed.get("fails")) or bool(unk)
+        if unfound and not has_input:
+            undecided.append("%s failed to discharge, but a function under contract was not found (%s): callers are no longer checked against its "
+                             "contract and no failing input was found on the real code - not reported as a violation" % (pf["obligation"], unfound[0].split(":")[0]))
+            continue
         with open(os.path.join(HERE, path), "w") as f:
             json.dump(dict(property=prop, failed_obligation=pf, counterexample=cex, replay_on_real_code=replayed,
                            native_failures_from_bounded_run=unk[:5],
